@@ -1058,9 +1058,15 @@ def complete(ctx: Ctx) -> bool:
     return not ctx.frames and (ctx.sc.root != "module" or len(ctx.funcs) == len(ctx.sc.funcs) + len(ctx.sc.extra.get("decls", ())))
 
 
-def run(sc: Scenario, program) -> Ctx:
+def run(sc: Scenario, program, observe=False) -> Ctx:
+    """observe: between any two builder calls every read-only observer of the HUGR under construction is
+    called (serialization may legitimately refuse an unfinished graph); what a user does at a prompt."""
     ctx = start(sc)
     for call in program:
+        if observe:
+            from mc.drivers.mutate import observe as _obs
+
+            _obs(ctx.hugr)
         apply(ctx, call)
     return ctx
 
